@@ -456,7 +456,7 @@ def build_prelude(scratch):
     import shutil
     d = Path(scratch) / "prelude_src"
     d.mkdir(parents=True, exist_ok=True)
-    src = Path("/repo/src/pyrtma/core_defs")
+    src = Path(os.environ.get("VF_REPO", "/repo") + "/src/pyrtma/core_defs")
     for f in src.glob("*.yaml"):
         shutil.copy(f, d / f.name)
     out = Path(scratch) / "prelude"
